@@ -577,9 +577,9 @@ func main() {
 		run.Finish("c17case", "replay", tail)
 		return
 	}
-	mul := 1
+	mul := 2
 	if o.Thorough() {
-		mul = 6
+		mul = 12
 	}
 	if o.N > 0 {
 		mul = o.N
@@ -610,7 +610,7 @@ func main() {
 	// a multi-byte instance with a non-zero Background: no property is claimed (the code has
 	// no single notion of background there), the model is still compared
 	dispatch(genHistory(rng, "uint16blk", []int32{4, 4, 2}, 5, false, false))
-	for i := 0; i < 60*mul; i++ {
+	for i := 0; i < 40*mul; i++ {
 		dispatch(genXfer(rng))
 	}
 	run.Finish("c17case",
